@@ -81,8 +81,9 @@ DoRepeat(s, c) ==
          IF v.k = "default" THEN [s EXCEPT !.pc = @ + 1]                       \* leave everything untouched
          ELSE IF v.k \in {"str", "seq", "map"} /\ ~Truthy(v) THEN SkipRepeat(s, c)   \* len() = 0
          ELSE IF v.k \notin {"str", "seq", "map", "iter"} THEN SkipRepeat(s, c)     \* a plain object
-         ELSE IF v.k = "map" THEN [s EXCEPT !.err = "KeyError"]     \* RepeatOverMapping: dict[0] escapes
-         ELSE IF v.k = "iter" /\ v.q = <<>> THEN [SkipRepeat(s, c) EXCEPT !.rv = NoRV]   \* exhausted before it started
+         \* no first value: an iterator exhausted before it started (IndexError), or a non-empty mapping, which has
+         \* len() but no item 0 (KeyError; repaired in the tree: "tal:repeat over a mapping produces nothing")
+         ELSE IF v.k = "map" \/ (v.k = "iter" /\ v.q = <<>>) THEN [SkipRepeat(s, c) EXCEPT !.rv = NoRV]
          ELSE LET items == IF v.k = "str" THEN CharSeq(v.s) ELSE v.q
                   r     == [on |-> TRUE, q |-> items, pos |-> 0, it |-> v.k = "iter"]
                   s1    == PushLocals([s EXCEPT !.rs = Append(@, s.rm), !.rm = Put(@, c.name, RV(items, 0, r.it))])   \* addRepeat
